@@ -35,9 +35,10 @@ pub fn unit_floats(r: &mut Rng, n: usize) -> Vec<f32> {
     for e in 1..=126u32 { let b = (127 - e) << 23; v.push(f32::from_bits(b)); v.push(f32::from_bits(b - 1)); v.push(f32::from_bits(b + 1)); }
     v.push(f32::from_bits(1)); v.push(f32::from_bits(0x007fffff)); v.push(f32::from_bits(0x00800000));
     while v.len() < n {
-        match r.below(4) {
+        match r.below(5) {
             0 => v.push(f32::from_bits(r.below(0x3f80_0001) as u32)),      // uniform in bits
             1 => v.push(r.unit() * r.unit()),
+            4 => v.push(1.0 - r.unit() * 0.003),                            // highlights: the steep end of PQ, cancellation in its denominator
             _ => v.push(r.unit()),                                          // uniform in value
         }
     }
